@@ -142,7 +142,7 @@ def digest_of(unit, path):
     return None
 
 
-def run_units(pid, units, tier, seed, level, rule, assumptions, extra_cov=None, known=None, exclude_note=None, post_cov=None):
+def run_units(pid, units, tier, seed, level, rule, assumptions, extra_cov=None, known=None, exclude_note=None, post_cov=None, fuzz=None):
     """Build and run all units; returns exit code.  Writes evidence."""
     t0 = time.time()
     work = tempfile.mkdtemp(prefix="skv-%s-" % pid, dir=skv._mk(os.path.join(skv.BUILD, "tmp")))
@@ -213,11 +213,18 @@ def run_units(pid, units, tier, seed, level, rule, assumptions, extra_cov=None, 
                 os.unlink(rp)
                 raise InfraError("failure of %s does not reproduce from its saved case (%d/3): %s\n%s" % (u.name, fails, msg, rout[-2000:]))
         digest_info = compare_digests(pid, units, work, seed, violations)
+        fuzz_info = None
+        if fuzz and tier == "thorough":
+            fv, fuzz_info, fstat, fhash = run_fuzz(pid, fuzz["prop"], units[0], units, work, seed,
+                                                   workers=fuzz.get("workers", 8), seconds=fuzz.get("seconds", 120))
+            violations.extend(fv); stat_files.extend(fstat); hash_files.extend(fhash)
         st = skv.merge_stats(stat_files)
         distinct = count_distinct(hash_files)
         cov = dict(evaluations=st["evaluations"], distinct_nontrivial=distinct, rule=rule, samples=st["samples"],
                    classes=st["classes"], units=per_unit, exhaustive=False)
         cov.update(st["extra"])
+        if fuzz_info:
+            cov["libfuzzer_campaign"] = fuzz_info
         if digest_info:
             cov["cross_process_and_cross_build_digest_comparisons"] = digest_info
         if extra_cov:
@@ -288,3 +295,78 @@ def main(argv):
     except InfraError as e:
         print("INFRA-ERROR (%s): %s" % (pid, e))
         return 2
+
+
+# --------------------------------------------------------------------------- libFuzzer campaigns (thorough tier)
+FUZZ_SAN = ["-fsanitize=address,undefined", "-fno-sanitize=alignment", "-fno-sanitize-recover=undefined", "-fno-omit-frame-pointer", "-g"]
+
+
+def run_fuzz(pid, propnum, seed_unit, replay_units, work, seed, workers=8, seconds=120):
+    """Structure-aware libFuzzer campaign on harness/fz.cpp with the property's own oracle inside the target.
+    Returns (violations, info).  Budget exhaustion is never a violation; only crash artefacts count and each
+    is replayed 3x through the plain replayers of the property's rapidcheck units."""
+    import glob
+    cfg = LibCfg(name="fuzz", cc="clang", opt="-O1", cflags=["-fsanitize=fuzzer-no-link"] + FUZZ_SAN, alloc_redirect=True)
+    objs = [skv.build_harness_obj("fz.cpp", cxx="clang++", flags=["-fsanitize=fuzzer"] + FUZZ_SAN + ["-O1"]),
+            skv.build_harness_obj("mon_alloc.c", cxx="clang", flags=FUZZ_SAN),
+            skv.build_lib(cfg)]
+    fz = os.path.join(work, "fz-%s" % pid)
+    skv.link(objs, fz, cxx="clang++", libs=["-lrapidcheck", "-ldl"], flags=["-fsanitize=fuzzer,address,undefined"])
+    # seed corpus: cases generated by the property's rapidcheck harness (plus an empty-corpus worker)
+    corpus0 = skv._mk(os.path.join(work, "corpus-seed"))
+    env = dict(os.environ, **seed_unit.env)
+    env["RC_PARAMS"] = "seed=%d max_success=150 max_size=60" % (seed * 1000 + 777)
+    subprocess.run(seed_unit.cmd("gen", "--corpus", corpus0, "--corpus-n", "150"), env=env, stdout=subprocess.PIPE, stderr=subprocess.STDOUT, timeout=600)
+    cmds = []; meta = []
+    for w in range(workers):
+        cdir = skv._mk(os.path.join(work, "corpus-%d" % w))
+        if w % 4 != 3:                      # every fourth worker starts from an empty corpus
+            for f in os.listdir(corpus0):
+                shutil.copy(os.path.join(corpus0, f), cdir)
+        base = os.path.join(work, "fz-w%d" % w)
+        e = dict(ASAN_OPTIONS="detect_leaks=0:allocator_may_return_null=1:abort_on_error=1", UBSAN_OPTIONS="halt_on_error=1",
+                 SKV_FZ_PROP=str(propnum), SKV_FZ_OUT=base + ".json", SKV_FZ_FAIL=base + ".fail", SKV_FZ_CUR=base + ".cur")
+        cmds.append(([fz, cdir, "-max_total_time=%d" % seconds, "-seed=%d" % (seed * 100 + w + 1), "-artifact_prefix=" + base + "-",
+                      "-print_final_stats=1", "-max_len=30000", "-len_control=0", "-timeout=60", "-rss_limit_mb=3000"], e))
+        meta.append(base)
+    results = skv.run_procs(cmds, timeout=seconds + 300)
+    violations = []; execs = 0; crashes = 0; statfiles = []; hashfiles = []
+    for base, (rc, out) in zip(meta, results):
+        for line in out.splitlines():
+            if "stat::number_of_executed_units" in line:
+                try: execs += int(line.split()[-1])
+                except ValueError: pass
+        statfiles.append(base + ".json"); hashfiles.append(base + ".json.hashes")
+        arts = [a for a in glob.glob(base + "-crash-*") + glob.glob(base + "-leak-*")]
+        if not arts:
+            continue            # slow-unit / timeout / oom artefacts are load noise, not violations
+        crashes += 1
+        if len(violations) >= 3:
+            continue
+        src = base + ".fail" if os.path.exists(base + ".fail") else base + ".cur"
+        if not os.path.exists(src):
+            raise InfraError("fuzzer crashed without leaving a case: " + out[-2000:])
+        rp = save_replay(pid, open(src).read())
+        msg = open(base + ".fail.msg").read().strip() if os.path.exists(base + ".fail.msg") else "crash / sanitizer report in the fuzz target: " + out.strip()[-400:]
+        confirmed = None
+        for u in replay_units:
+            fails, rout = replay_fails(u, rp, 3)
+            if fails == 3:
+                confirmed = u; break
+        if confirmed is None:
+            # not visible in the gcc builds: accept a 3x reproduction by the sanitizer build of the fuzz target executing
+            # the *repaired program* that was running when it died (no mutation, no raw fuzzer input involved)
+            fails = 0
+            for _ in range(3):
+                r = subprocess.run([fz, rp, "-timeout=60"], stdout=subprocess.PIPE, stderr=subprocess.STDOUT, env=dict(os.environ, **cmds[0][1]))
+                fails += r.returncode != 0
+            if fails < 3:
+                os.unlink(rp)
+                raise InfraError("fuzz target died on an input, but the program it was executing does not reproduce the failure "
+                                 "(a defect of the fuzz harness itself: parse / repair / mutator): " + msg)
+            violations.append((rp, "libfuzzer", msg + " (reproduces in the clang ASan+UBSan build of the fuzz target)"))
+        else:
+            violations.append((rp, "libfuzzer->" + confirmed.name, msg))
+    info = dict(workers=workers, seconds_per_worker=seconds, executions=execs, workers_with_crash=crashes,
+                seed_corpus=len(os.listdir(corpus0)), empty_corpus_workers=len([w for w in range(workers) if w % 4 == 3]))
+    return violations, info, statfiles, hashfiles
